@@ -356,6 +356,12 @@ func (pc *packetConn) Read(b []byte) (n int, err error) {
 	// Although Close() also does this, we inform the server loop early about
 	// the closure to ensure that if any new packets are received from this
 	// connection in the meantime, a new handler will be started.
+	//
+	// The connection is marked closed first: the server loop may be blocked
+	// handing a packet to this very connection (full readCh), and while it is,
+	// nobody drains closeCh. With closeCh full, the send below would wait for
+	// the loop and the loop for us: the whole UDP server would stop for good.
+	pc.closeOnce.Do(func() { close(pc.closed) })
 	pc.closeCh <- pc.addr.String()
 	// Returning EOF here ensures that io.Copy() waiting on the downstream for
 	// reads will terminate.
